@@ -32,7 +32,7 @@ func checkC13(c *Ctx) {
 		"EOF gives a syntax error; (C13.escape) the backtick machine's step table is extracted and its complete configuration space (state x hex count x buffer) is explored exhaustively: " +
 		"exactly `CR` `LF` `CRLF` `TAB` `SP` `BK` and `U+`H{1,8} decode, a lone quote between backticks denotes itself only directly after the opening backtick, every other text is kept verbatim " +
 		"(the consumed characters are returned unchanged); (C13.codepoint) a U+hex escape is decoded only under err == nil && utf8.ValidRune. " +
-		"(C13.verbatim) from the string token to the text value the characters are handed over unchanged (conversions only) at each of the five hand-over points; (C13.fresh = C07.fresh) a literal yields a new text on every evaluation. NOT decided: the round trip encode∘decode = id itself (needs an encoder model), line bookkeeping (C18)."
+		"(C13.verbatim) from the string token to the text value the characters are handed over unchanged (conversions only) at each of the five hand-over points; (C13.fresh = C07.fresh) a literal yields a new text on every evaluation. NewLexer stores the given characters unchanged (no line-break normalisation); (C13.decode = C17.runeerror) U+FFFD is a character, not a decoding error. NOT decided: the round trip encode∘decode = id itself (needs an encoder model), line bookkeeping (C18)."
 	R.Assumptions = []string{
 		"Lexer.Next/Peek/Peek2/GetCurrentChar return the characters at cursor+1 (after moving) / +1 / +2 / +0",
 		"strconv.ParseInt and utf8.ValidRune behave as documented",
@@ -499,6 +499,7 @@ func checkBacktickMachine(c *Ctx, u *Universe) {
 		R.undecided("C13.escape", "pkg/syntax/zh.unescapeBackTickSpecialStr", pos, "keep-literal exit not found")
 		return
 	}
+	exitLabel := exitLabelOf(fd)
 	// cap for the hex counter: one above the largest constant it is compared with
 	hexCap := int64(9)
 
@@ -562,10 +563,10 @@ func checkBacktickMachine(c *Ctx, u *Universe) {
 					report(desc + ": step not extractable: " + pe.failed)
 					continue
 				}
-				// resolve goto UNDONE_end
+				// resolve the goto to the keep-literal exit
 				var finals []Outcome
 				for _, o := range outs {
-					if o.Kind == "goto" && o.Label == "UNDONE_end" {
+					if o.Kind == "goto" && o.Label == exitLabel {
 						finals = append(finals, pe.exec(o.St, after)...)
 					} else {
 						finals = append(finals, o)
